@@ -1,5 +1,6 @@
 -- root of the library: every model, proof and property file (Generated/*.lean must exist: harness/setup.sh
 -- runs the translators first)
+import TrimeshVerif.Props.C01
 import TrimeshVerif.Props.C02
 import TrimeshVerif.Props.C03
 import TrimeshVerif.Props.C04
